@@ -1,1 +1,120 @@
-//! placeholder, filled in below
+//! K-box: `boxed::Box` (C17) -- value round trips, ownership transfer, conversions, downcast; bounded in the type instances.
+use super::util::*;
+use super::vecs::{D, DROPS};
+use crate::boxed::Box;
+use crate::collections::Vec;
+use crate::*;
+use core::alloc::Layout;
+use core::any::Any;
+use core::convert::TryFrom;
+use core::ptr::NonNull;
+
+fn no_slow<const MIN_ALIGN: usize>(_b: &Bump<MIN_ALIGN>, _l: Layout) -> Option<NonNull<u8>> { kani::assume(false); None }
+unsafe fn reset_drops() { let mut i = 0; while i < 8 { DROPS[i] = 0; i += 1; } }
+
+#[kani::proof]
+#[kani::unwind(8)]
+#[kani::stub(Bump::alloc_layout_slow, no_slow)]
+fn k_box_roundtrips() {
+    let b = mk_bump::<1>(448);
+    let x: u32 = kani::any();
+    let bx = Box::new_in(x, &b);
+    assert!(*bx == x);
+    let f_after_alloc = finger(&b);
+    let y = Box::into_inner(bx);
+    assert!(y == x);
+    let bx2 = Box::new_in([x; 3], &b);
+    let raw = Box::into_raw(bx2);
+    let bx3 = unsafe { Box::from_raw(raw) };
+    assert!(bx3[2] == x);
+    let l: &mut [u32; 3] = Box::leak(bx3);
+    assert!(l[0] == x);
+    let z = Box::new_in((), &b);
+    assert!(*z == ());
+    let p = Box::pin_in(x, &b);
+    assert!(*p == x);
+    drop(z); drop(p);
+    assert!(finger(&b) <= f_after_alloc, "C17 dropping a Box never releases arena memory");
+    kani::cover!(x == 7);
+    core::mem::forget(b);
+}
+
+#[kani::proof]
+#[kani::unwind(8)]
+#[kani::stub(Bump::alloc_layout_slow, no_slow)]
+fn k_box_drop_once() {
+    unsafe { reset_drops(); }
+    let b = mk_bump::<1>(448);
+    let f0 = finger(&b);
+    let bx = Box::new_in(D(0), &b);
+    let f1 = finger(&b);
+    drop(bx);
+    unsafe { assert!(DROPS[0] == 1, "C17 destructor runs exactly once"); }
+    assert!(finger(&b) == f1 && f1 < f0, "C17 Box drop does not give memory back");
+    let by = Box::new_in(D(1), &b);
+    let inner = Box::into_inner(by);
+    unsafe { assert!(DROPS[1] == 0, "C17 into_inner transfers ownership without dropping"); }
+    drop(inner);
+    unsafe { assert!(DROPS[1] == 1); }
+    let bz = Box::new_in(D(2), &b);
+    let _leaked: &mut D = Box::leak(bz);
+    let bw = Box::new_in(D(3), &b);
+    let raw = Box::into_raw(bw);
+    unsafe { assert!(DROPS[2] == 0 && DROPS[3] == 0, "C17 leak / into_raw never run the destructor"); }
+    drop(unsafe { Box::from_raw(raw) });
+    unsafe { assert!(DROPS[3] == 1); }
+    kani::cover!(true);
+    core::mem::forget(b);
+}
+
+#[kani::proof]
+#[kani::unwind(8)]
+#[kani::stub(Bump::alloc_layout_slow, no_slow)]
+fn k_box_slices_arrays() {
+    unsafe { reset_drops(); }
+    let b = mk_bump::<1>(448);
+    let vals: [u8; 3] = kani::any();
+    let arr = Box::new_in(vals, &b);
+    let sl: Box<[u8]> = arr.into();
+    assert!(sl.len() == 3 && sl[0] == vals[0] && sl[2] == vals[2], "C17 element order preserved");
+    let back: Result<Box<[u8; 3]>, Box<[u8]>> = Box::try_from(sl);
+    assert!(back.is_ok());
+    let sl2: Box<[u8]> = back.unwrap().into();
+    let wrong: Result<Box<[u8; 2]>, Box<[u8]>> = Box::try_from(sl2);
+    assert!(wrong.is_err(), "C17 a slice of another length is handed back, not truncated");
+    let orig = wrong.err().unwrap();
+    assert!(orig.len() == 3 && orig[1] == vals[1]);
+    // Vec -> boxed slice keeps elements and ownership (drop once, by the box)
+    let mut v: Vec<D> = Vec::with_capacity_in(4, &b);
+    v.push(D(0)); v.push(D(1));
+    let bs = v.into_boxed_slice();
+    unsafe { assert!(DROPS[0] == 0 && DROPS[1] == 0); }
+    assert!(bs.len() == 2 && bs[1].0 == 1);
+    let wrong2: Result<Box<[D; 1]>, Box<[D]>> = Box::try_from(bs);
+    assert!(wrong2.is_err());
+    drop(wrong2);
+    unsafe { assert!(DROPS[0] == 1 && DROPS[1] == 1, "C17 every element of a rejected conversion is still owned and dropped once"); }
+    let fi = Box::from_iter_in(vals.iter().copied(), &b);
+    assert!(fi.len() == 3 && fi[2] == vals[2]);
+    kani::cover!(true);
+    drop(orig); drop(fi);
+    core::mem::forget(b);
+}
+
+#[kani::proof]
+#[kani::unwind(8)]
+#[kani::stub(Bump::alloc_layout_slow, no_slow)]
+fn k_box_downcast() {
+    let b = mk_bump::<1>(448);
+    let x: u32 = kani::any();
+    let bx = Box::new_in(x, &b);
+    let raw = Box::into_raw(bx) as *mut dyn Any;
+    let any: Box<dyn Any> = unsafe { Box::from_raw(raw) };
+    let miss = any.downcast::<u64>();
+    assert!(miss.is_err(), "C17 non-matching downcast hands the box back");
+    let any = miss.err().unwrap();
+    let hit = any.downcast::<u32>();
+    assert!(hit.is_ok() && *hit.unwrap() == x, "C17 matching downcast preserves the value");
+    kani::cover!(x == 9);
+    core::mem::forget(b);
+}
